@@ -38,6 +38,8 @@ func NewClientServerStream(ctx context.Context) *ClientServerStream {
 }
 
 func (s *ClientServerStream) Close(err error) {
+	// like a real gRPC server, headers the handler has set but not sent are delivered along with the status
+	(&serverStream{s}).sendHeaderIfNeeded()
 	s.closeErr = err
 	close(s.serverSend)
 	s.closed()
